@@ -36,7 +36,68 @@ def snapshot_globals():
     return snap
 
 
+class RefResult(__import__('unittest').TestResult):
+    """Stock unittest result that records which result events arrive."""
+
+    def __init__(self):
+        super().__init__()
+        self.ev = {}
+        self.started = {}
+
+    def _add(self, test, kind):
+        self.ev.setdefault(test._verif_id, []).append(kind)
+
+    def startTest(self, test):
+        self.started[test._verif_id] = True
+        super().startTest(test)
+
+    def addSuccess(self, test):
+        self._add(test, 'ok')
+
+    def addFailure(self, test, err):
+        self._add(test, 'F')
+
+    def addError(self, test, err):
+        self._add(test, 'E')
+
+    def addSkip(self, test, reason):
+        self._add(test, 'S')
+
+    def addExpectedFailure(self, test, err):
+        self._add(test, 'X')
+
+    def addUnexpectedSuccess(self, test):
+        self._add(test, 'U')
+
+    def addSubTest(self, test, subtest, err):
+        if err is not None:
+            self._add(test, 'SF' if issubclass(err[0], test.failureException)
+                      else 'SE')
+
+
+def compute_ref(spec):
+    """Environment fact: the result events stock unittest delivers for each
+    scripted test on this interpreter (layers play no role)."""
+    import copy
+    spec = copy.deepcopy(spec)
+    spec['ref_mode'] = True
+    log = worldlib.EventLog(None)
+    w = worldlib.World(spec, log)
+    old = sys.stdout, sys.stderr
+    sys.stdout, sys.stderr = io.StringIO(), io.StringIO()
+    try:
+        res = RefResult()
+        for tid, t in w.tests.items():
+            t.run(res)
+    finally:
+        sys.stdout, sys.stderr = old
+    return {'ev': {t: res.ev.get(t, []) for t in w.tests},
+            'started': {t: bool(res.started.get(t)) for t in w.tests}}
+
+
 def run_job(job, scratch):
+    if job.get('ref_only'):
+        return {'id': job['id'], 'ref': compute_ref(job['world'])}
     from zope.testrunner.runner import Runner
     spec = job['world']
     log = worldlib.EventLog(None)
